@@ -18,6 +18,7 @@ import (
 	"fmt"
 	"io"
 	"os"
+	"path"
 	"path/filepath"
 	"sort"
 	"strings"
@@ -30,13 +31,18 @@ import (
 )
 
 type aFile struct {
-	Path    string `json:"path"`
-	Type    string `json:"type"` // file | dir | symlink | hardlink
+	Path string `json:"path"`
+	// file | dir | symlink | hardlink | cont (tar type '7', carries a body) | char | block | fifo.
+	// A path may occur more than once in one data section (round 2: same-name entries).
+	Type    string `json:"type"`
 	Mode    int64  `json:"mode"`
 	Content string `json:"content,omitempty"`
 	Link    string `json:"link,omitempty"`
 	// per-file record: "" good (hex) | q1 (Q1+base64, good) | bad (one byte flipped) | none | malformed
 	Rec string `json:"rec,omitempty"`
+	// RecOf: the record is the (good, hex) SHA-1 of this text instead of the entry's own body / link name
+	// (a follower entry that copies the record of the regular file it shadows)
+	RecOf *string `json:"rec_of,omitempty"`
 }
 
 // aAlt is one build of a package: alternative 0 is the one the repository is supposed to serve.
@@ -73,6 +79,10 @@ type aEntry struct {
 	Kind string // r s d h o
 	Body []byte
 	Rec  string // "-" absent, "!" malformed, else digest text
+	Link string // Linkname of a symlink / hard link
+	// TarTarget: the name the lazy tar FS (pkg/apk/internal/tarfs.open) looks up when it is asked to open this link
+	// entry: Linkname when absolute, else path.Join(path.Dir(Name), Linkname) — for hard links too
+	TarTarget string
 }
 
 type aMember struct {
@@ -91,6 +101,9 @@ func authDataMember(files []aFile) aMember {
 			h := &tar.Header{Name: f.Path, Mode: f.Mode, ModTime: time.Unix(1600000000, 0), Format: tar.FormatPAX, Uname: "root", Gname: "root"}
 			e := aEntry{Name: f.Path, Rec: "-"}
 			rec := func(b []byte) {
+				if f.RecOf != nil {
+					b = []byte(*f.RecOf)
+				}
 				s := sha1.Sum(b)
 				switch f.Rec {
 				case "none":
@@ -122,12 +135,30 @@ func authDataMember(files []aFile) aMember {
 			case "symlink":
 				h.Typeflag = tar.TypeSymlink
 				h.Linkname = f.Link
-				e.Kind = "s"
+				e.Kind, e.Link, e.TarTarget = "s", f.Link, authTarTarget(f.Path, f.Link)
 				rec([]byte(f.Link))
 			case "hardlink":
 				h.Typeflag = tar.TypeLink
 				h.Linkname = f.Link
-				e.Kind = "h"
+				e.Kind, e.Link, e.TarTarget = "h", f.Link, authTarTarget(f.Path, f.Link)
+			case "cont":
+				// a "contiguous file": archive/tar reads and writes a body for it, checkSums does not hash it
+				h.Typeflag = tar.TypeCont
+				h.Size = int64(len(f.Content))
+				e.Kind = "o"
+				e.Body = []byte(f.Content)
+				if f.Rec != "none" || f.RecOf != nil {
+					rec([]byte(f.Content))
+				}
+			case "char", "block", "fifo":
+				h.Typeflag = map[string]byte{"char": tar.TypeChar, "block": tar.TypeBlock, "fifo": tar.TypeFifo}[f.Type]
+				if f.Type != "fifo" {
+					h.Devmajor, h.Devminor = 1, 3
+				}
+				e.Kind = "o"
+				if f.RecOf != nil {
+					rec(nil)
+				}
 			default:
 				h.Typeflag = tar.TypeReg
 				h.Size = int64(len(f.Content))
@@ -138,7 +169,7 @@ func authDataMember(files []aFile) aMember {
 			if err := tw.WriteHeader(h); err != nil {
 				panic(fmt.Sprintf("authentic: tar header %q: %v", f.Path, err))
 			}
-			if h.Typeflag == tar.TypeReg {
+			if h.Typeflag == tar.TypeReg || h.Typeflag == tar.TypeCont {
 				tw.Write([]byte(f.Content))
 			}
 			m.Entries = append(m.Entries, e)
@@ -146,6 +177,14 @@ func authDataMember(files []aFile) aMember {
 	})
 	m.Bytes = gz(raw)
 	return m
+}
+
+// authTarTarget: see aEntry.TarTarget
+func authTarTarget(name, link string) string {
+	if path.IsAbs(link) {
+		return link
+	}
+	return path.Join(path.Dir(name), link)
 }
 
 func authControlMember(p aPkg, a aAlt, data []byte) aMember {
@@ -244,10 +283,10 @@ func (w *aWorld) tables() (h, c, d string) {
 			var es []string
 			for _, e := range dm.Entries {
 				body := 0
-				if e.Kind == "r" {
+				if e.Kind == "r" || (e.Kind == "o" && e.Body != nil) {
 					body = w.tok(e.Body)
 				}
-				es = append(es, fmt.Sprintf("%s.%s.%d.%s", hx(e.Name), e.Kind, body, e.Rec))
+				es = append(es, fmt.Sprintf("%s.%s.%d.%s.%s.%s", hx(e.Name), e.Kind, body, e.Rec, hx(e.Link), hx(e.TarTarget)))
 			}
 			ds = append(ds, fmt.Sprintf("%d:%s", w.tok(dm.Bytes), strings.Join(es, "|")))
 		}
@@ -288,10 +327,63 @@ func (w *aWorld) indexChecksum(i int, s aServe) []byte {
 	case "served":
 		x := sha1.Sum(w.Ctl[s.Ctl.Pkg][s.Ctl.Alt].Bytes)
 		return x[:]
+	case "caseflip", "bitflip":
+		// near misses of the right checksum: one base64 letter in the other case / one bit of the digest flipped
+		x := sha1.Sum(w.Ctl[i][0].Bytes)
+		return authNearMiss(x[:], s.Index)
 	default:
 		x := sha1.Sum(w.Ctl[i][0].Bytes)
 		return x[:]
 	}
+}
+
+// authNearMiss returns a 20-byte value that differs from the digest but is close to it in the encoded form:
+// caseflip = the Q1+base64 text differs in the case of exactly one letter; bitflip = one bit of the digest.
+func authNearMiss(digest []byte, mode string) []byte {
+	out := append([]byte(nil), digest...)
+	if mode == "caseflip" {
+		t := []byte(base64.StdEncoding.EncodeToString(digest))
+		for i := 0; i < 26; i++ { // the first 26 characters carry 6 full bits each
+			c := t[i]
+			if c >= 'a' && c <= 'z' {
+				t[i] = c - 32
+			} else if c >= 'A' && c <= 'Z' {
+				t[i] = c + 32
+			} else {
+				continue
+			}
+			if b, err := base64.StdEncoding.DecodeString(string(t)); err == nil && len(b) == 20 && !bytes.Equal(b, digest) {
+				return b
+			}
+			t[i] = c
+		}
+	}
+	out[7] ^= 0x10
+	return out
+}
+
+// authNonCanonical re-encodes a `Q1`+base64 checksum of 20 bytes with the two unused bits of the last symbol set:
+// another text for the same digest (encoding/base64 does not insist on zero padding bits).
+func authNonCanonical(chk string) string {
+	const alpha = "ABCDEFGHIJKLMNOPQRSTUVWXYZabcdefghijklmnopqrstuvwxyz0123456789+/"
+	body := strings.TrimPrefix(chk, "Q1")
+	if len(body) != 28 || body[27] != '=' {
+		return chk
+	}
+	k := strings.IndexByte(alpha, body[26])
+	if k < 0 {
+		return chk
+	}
+	alt := "Q1" + body[:26] + string(alpha[k|1]) + "="
+	if alt == chk {
+		alt = "Q1" + body[:26] + string(alpha[k|2]) + "="
+	}
+	a, err1 := base64.StdEncoding.DecodeString(alt[2:])
+	b, err2 := base64.StdEncoding.DecodeString(body)
+	if err1 != nil || err2 != nil || !bytes.Equal(a, b) {
+		return chk
+	}
+	return alt
 }
 
 // repo builds the signed repository of one variant (x86_64 only).
@@ -336,13 +428,17 @@ func authOpts(work string, ic *types.ImageConfiguration, tr *SynthTransport, cac
 }
 
 // authLock runs the real `apko lock`; returns the lock file content.
-func authLock(world []string, repo *SynthTransport, cacheDir string) ([]byte, error) {
+// fresh = the command runs in a new process (every process-wide cache of pkg/apk/apk starts empty); otherwise it
+// runs in the process of the previous command (a long-lived caller of the library).
+func authLock(world []string, repo *SynthTransport, cacheDir string, fresh bool) ([]byte, error) {
 	work, err := os.MkdirTemp("", "verif-auth-lock-")
 	if err != nil {
 		return nil, err
 	}
 	defer os.RemoveAll(work)
-	apk.VerifResetGlobalCaches()
+	if fresh {
+		apk.VerifResetGlobalCaches()
+	}
 	ic := types.ImageConfiguration{}
 	ic.Contents.Packages = world
 	out := filepath.Join(work, "apko.lock.json")
@@ -353,13 +449,15 @@ func authLock(world []string, repo *SynthTransport, cacheDir string) ([]byte, er
 }
 
 // authBuild runs the real `apko build` (optionally --lockfile) and returns the OCI layout files.
-func authBuild(world []string, repo *SynthTransport, cacheDir string, lock []byte) (map[string][]byte, error) {
+func authBuild(world []string, repo *SynthTransport, cacheDir string, lock []byte, fresh bool) (map[string][]byte, error) {
 	work, err := os.MkdirTemp("", "verif-auth-build-")
 	if err != nil {
 		return nil, err
 	}
 	defer os.RemoveAll(work)
-	apk.VerifResetGlobalCaches()
+	if fresh {
+		apk.VerifResetGlobalCaches()
+	}
 	ic := types.ImageConfiguration{}
 	ic.Contents.Packages = world
 	opts := authOpts(work, &ic, repo, cacheDir)
